@@ -433,7 +433,7 @@ func run(t *rapid.T, prop string) {
 		b.MinRows, b.MaxRows = 100, 700 // several growth steps of the table, also in the quick tier
 	}
 	fs := gen.DrawFrame(t, b)
-	scr := gen.DrawIndexScramble(t, fs)
+	scr := gen.DrawLayoutScramble(t, fs)
 	tr := &trace{Frame: fs, Scramble: scr}
 	// key columns: any subset and order of the data columns
 	var dataCols []string
